@@ -20,7 +20,7 @@ Spec == Init /\ [][Next]_<<g, k>>
 
 SetOf(s) == {s[i] : i \in 1..Len(s)}
 Cfg(i) == LET c == Cfgs[i] IN [rh |-> c.rh = 1, exact |-> SetOf(c.exact), suffix |-> SetOf(c.suffix), mexact |-> SetOf(c.mexact), msuffix |-> SetOf(c.msuffix),
-                               bmfaddr |-> {[loc |-> x.loc, dom |-> x.dom] : x \in SetOf(c.bmfaddr)}, bmfdom |-> SetOf(c.bmfdom), lip |-> c.lip, relay |-> c.relay]
+                               bmfaddr |-> {[loc |-> x.loc, dom |-> x.dom] : x \in SetOf(c.bmfaddr)}, bmfdom |-> SetOf(c.bmfdom), lip |-> c.lip, relay |-> c.relay, mrhbad |-> c.mrhbad # 0]
 Addr(a) == [loc |-> a.loc, dom |-> a.dom, noat |-> a.noat = 1, long |-> a.long = 1, lit |-> a.lit = 1, edge |-> a.edge = 1]
 Sub(s) == IF Len(s) = 0 THEN <<>> ELSE <<[s |-> Addr(s[1].s), rc |-> [i \in 1..Len(s[1].rc) |-> [a |-> Addr(s[1].rc[i].a), sfx |-> s[1].rc[i].sfx = 1]]]>>
 RECURSIVE Fold(_, _, _, _)
